@@ -5,7 +5,7 @@
    (Spec/Modbus.ref_handle_frame over the same handler) are evaluated. Definitions only. *)
 From Coq Require Import NArith List String Bool.
 From Rodbus Require Import Base.Outcome Base.ServerTypes Base.Show Model.DbTypes Model.Database Model.Server Model.FfiServer Spec.Modbus.
-From Rodbus Require Import Spec.FfiWireSpec.
+From Rodbus Require Import Spec.FfiWireSpec Gen.LockScope.
 Import ListNotations.
 Local Open Scope N_scope.
 
@@ -28,6 +28,15 @@ Fixpoint run_items (W : c_write_handler N) (model : bool) (units : wire_units) (
         else let '(bs, us, _) := ref_handle_frame (ffi_handler W) LTcp NoAuth units fr in (show_reply (Ok bs), us) in
       let '(out, u') := run_items W model units' (tx + 1) rest in
       (reply :: out, u')
+  | IDup ops :: rest =>
+      (* device_map_add_endpoint for a unit id that is taken, per the regenerated statement order: refused before anything
+         happens - or the configure callback runs on a fresh database that then REPLACES the registered one *)
+      if duplicate_unit_refused_before_any_effect then
+        let '(out, u') := run_items W model units tx rest in ("dup=F" :: out, u')
+      else
+        let '(d', rs) := Database.run db_empty ops in
+        let '(out, u') := run_items W model (with_store units (sset (u_store units) 1 (d', 0))) tx rest in
+        (match rs with [] => "dup=F" :: out | _ => show_results rs :: "dup=F" :: out end, u')
   end.
 
 Definition callbacks_of (units : wire_units) : N := snd (u_store units 1).
